@@ -135,7 +135,8 @@ func ruleVD8(c *Ctx) {
 			if ok && lg != nil {
 				item := c.lookupValue(f, "Tasks", vc)
 				if lk, isLk := item.(*ssa.Extract); isLk {
-					if l2, ok2 := lk.Tuple.(*ssa.Lookup); ok2 && !valueFromCallTo(l2.X, lg) {
+					re := c.F.Anchors["replayEvents"]
+					if l2, ok2 := lk.Tuple.(*ssa.Lookup); ok2 && !valueFromCallTo(l2.X, lg) && !(re != nil && valueFromCallTo(l2.X, re)) {
 						ok, why = false, "the lookup is not on the graph loaded in this callback"
 					}
 				}
